@@ -27,7 +27,7 @@ ASSUMPTIONS = [
 ]
 NCASES = {"quick": 6000, "thorough": 150000}
 NSHARDS = 16
-SHARD_TIMEOUT = {"quick": 600, "thorough": 3600}
+SHARD_TIMEOUT = {"quick": 300, "thorough": 3600}
 MOD = "vf.checks.c07"
 
 OPS = ["set", "getitem", "get", "del", "contains", "len", "list", "keys", "values", "items", "pop", "popitem",
